@@ -139,6 +139,8 @@ var (
 	maxSteps         = 20000
 	timerJumps       bool
 	freeSwitches     bool
+	jumpsTaken       int
+	jumpedNs         int64
 )
 
 var abortSentinel = new(int)
@@ -499,6 +501,18 @@ func finish(id int) {
 	futexWake(&ctrlWord)
 }
 
+// TimerJumps is the number of timers that have fired early so far in this execution (a thread was
+// run by jumping the virtual clock while other threads were still runnable).
+//
+//go:norace
+func TimerJumps() int { return jumpsTaken }
+
+// JumpedNs is the total virtual time skipped by timers firing early in this execution, i.e. how
+// long runnable threads were held up in favour of a sleeping one.
+//
+//go:norace
+func JumpedNs() int64 { return jumpedNs }
+
 // Step is the number of scheduling steps taken so far in this execution (a logical clock).
 //
 //go:norace
@@ -686,6 +700,7 @@ func runOne(body func()) {
 		slots[i] = slot{}
 	}
 	nslots, nclosed, nchoices, spent, ntrace, now, steps = 0, 0, 0, 0, 0, 0, 0
+	jumpsTaken, jumpedNs = 0, 0
 	failSig, failMsg, panicked, deadlocked, aborting = "", "", false, false, false
 	ctrlWord = 0
 	active = true
@@ -789,7 +804,9 @@ func runOne(body func()) {
 			k := decide(n, free, "thread")
 			pick = en[k]
 			if jump[k] > now {
+				jumpedNs += jump[k] - now
 				now = jump[k]
+				jumpsTaken++
 			}
 		}
 		last = pick
